@@ -9,7 +9,7 @@ RULE = (
     "stop sets x 4 filter sets (quick n<=5); random trees with hostile names, custom nodenamefunc/nodefunc/edgefunc, options, indent, to_file; distinct = hash of the configuration"
 )
 ASSUMPTIONS = ["the order of edge lines among themselves is not part of the statement and is not checked"]
-GATES = ["mon.C13.export", "C13.edges_checked", "C13.maxlevel0", "C13.stop_and_filter", "C13.hostile_names", "C13.custom", "C13.to_file", "C13.predicate_change", "C13.value_semantics_nodes"]
+GATES = ["mon.C13.export", "C13.edges_checked", "C13.maxlevel0", "C13.stop_and_filter", "C13.hostile_names", "C13.custom", "C13.to_file", "C13.predicate_change", "C13.value_semantics_nodes", "C13.attribute_reassigned", "C13.tree_changed_between_iterations", "C13.aborted_iteration_then_reuse"]
 
 
 def plan(tier, seed, jobs):
@@ -57,7 +57,7 @@ def run(ctx):
         par, _ = gen.random_tree(rng, n)
         ch = gen.children_of(par)
         names = G.hostile_names(rng, n, rng.random() < 0.4)
-        if any(c in x for x in names for c in '"\\'):
+        if any(c in str(x) for x in names for c in '"\\'):
             ctx.count("C13.hostile_names")
         valsem = rng.random() < 0.3
         if valsem:
@@ -66,6 +66,9 @@ def run(ctx):
         idmap = {id(o): i for i, o in enumerate(nodes)}
         case = {"par": list(par), "names": names, "value_semantics": valsem}
         for q in range(6):
+            # fresh objects per query: the second iteration of a check may rename and move nodes
+            nodes = G.build(par, names, valsem)
+            idmap = {id(o): i for i, o in enumerate(nodes)}
             s = rng.choice([0, 0, rng.randrange(n)])
             stop = frozenset(x for x in range(n) if rng.random() < rng.choice([0, 0.15, 0.3]))
             hidden = frozenset(x for x in range(n) if rng.random() < rng.choice([0, 0.2, 0.5]))
@@ -76,7 +79,7 @@ def run(ctx):
             ctx.case((par, tuple(names), s, stop, hidden, ml, repr(custom)), sample=dict(case, start=s, stop=sorted(stop), hidden=sorted(hidden), maxlevel=ml, custom=custom) if r % 150 == 0 and q == 0 else None)
             phase2 = None
             if q % 2:
-                phase2 = (frozenset(x for x in range(n) if rng.random() < 0.2), frozenset(x for x in range(n) if rng.random() < 0.3))
+                phase2 = G.random_phase2(rng, n, par, s)
             G.check_mermaid(ctx, "C13", lib, nodes, idmap, names, par, ch, s, stop, hidden, ml, custom, case, to_file_dir=os.getcwd() if q == 0 else None, phase2=phase2)
 
 
@@ -93,4 +96,4 @@ def replay(ctx, wit):
     ph = c.get("phase2")
     G.check_mermaid(ctx, "C13", lib, nodes, idmap, names, par, gen.children_of(par), c.get("start", 0), frozenset(c.get("stop", [])),
                     frozenset(c.get("hidden", [])), c.get("maxlevel"), c.get("custom"), {"par": par, "names": names}, to_file_dir=os.getcwd(),
-                    phase2=(frozenset(ph[0]), frozenset(ph[1])) if ph else None)
+                    phase2=ph)
